@@ -577,4 +577,15 @@ def r9_semantics_not_shared(a, tier):
     return rep
 
 
-RULES = [r1_action_on_success, r2_lookup_order, r3_failure_conversion, r4_transparency, r5_decorators, r6_per_parse_state, r7_nomemo_gate, r8_action_contract, r9_semantics_not_shared]
+def r10_foreign_exceptions_pass_lookahead(a, tier):
+    """an exception of an action that is not a parse failure passes through every construct, the negative lookahead included"""
+    from . import c01
+    rep = c01.r7b_negative_lookahead(a, tier)
+    rep.rule = 'C06.R10'
+    for f in rep.findings:
+        f.rule = 'C06.R10'
+    rep.text = '[= C01.R7b] ' + rep.text
+    return rep
+
+
+RULES = [r1_action_on_success, r2_lookup_order, r3_failure_conversion, r4_transparency, r5_decorators, r6_per_parse_state, r7_nomemo_gate, r8_action_contract, r9_semantics_not_shared, r10_foreign_exceptions_pass_lookahead]
